@@ -83,6 +83,16 @@ def producer_configs(tier):
                     "script": [["send", "t", None, ["a0"]], ["send", "t", None, ["b0"]], ["send", "u", None, ["c0"]],
                                ["send", "t", None, ["d0"]]],
                     "menu": {"cluster_events": EVENTS, "timer_early": True}})
+    # a broker dies for good (port closed) and its partitions move; also without acknowledgements, where only a
+    # send that could not be handed to a connection tells the client that its routing is stale
+    for acks, batched in itertools.product([1, 0], [False, True]):
+        prod = {"acks": acks, "max_req_attempts": 4, "retry_interval": 0.25}
+        if batched:
+            prod.update(batch_send=True, batch_every_n=2, batch_every_b=0, batch_every_t=0)
+        out.append({"cluster": PCLUSTER, "discovery": False, "producer": prod, "timeout_ms": 2000,
+                    "script": [["send", "t", None, ["a0"]], ["send", "t", None, ["b0"]], ["send", "u", None, ["c0"]],
+                               ["send", "t", None, ["d0"]], ["send", "u", None, ["e0"]], ["send", "t", None, ["f0"]]],
+                    "menu": {"cluster_events": [["kill", 1, 2], ["move", "t", 1, 1]], "timer_early": True}})
     return out
 
 
@@ -107,8 +117,10 @@ RULE = ("histories: every sequence of <=3 (quick, thinned at depth 3) / <=4 (tho
         "equal the response, other topics must be unchanged, vanished partitions must not look alive, a full refresh "
         "closes connections to missing brokers, new connections use the latest address.  self-heal: producer (4 "
         "sends, batched/unbatched, 4 attempts) and consumer (5-message log) with every sequence of <=2 (quick) / <=3 "
-        "(thorough) events from {leader moves, broker restarts, address change} injected at every point: a request "
-        "to a partition whose routing was invalidated (error 3/6) is preceded by a metadata request; once faults "
+        "(thorough) events from {leader moves, broker restarts, address change, a broker dying for good with its "
+        "partitions moving; acks 1 and 0} injected at every point: a request to a partition whose routing was "
+        "invalidated (error 3/6, or a produce call none of whose payloads reached a connection) is preceded by a "
+        "metadata request; once faults "
         "cease every send is acknowledged by the current leader and the consumer reaches the log end.")
 ASSUME = ["SimCluster's Metadata v0 answers are the ground truth of 'what the response said'", "small scope"]
 
